@@ -15,6 +15,8 @@ use std::sync::Arc;
 use quick_cache::sync::Cache;
 use rand::prelude::*;
 
+#[cfg(feature = "verif-hooks")]
+pub use self::weighted_shuffle::VerifWeightedShuffle;
 pub(crate) use self::weighted_shuffle::WeightedShuffle;
 use super::Disseminator;
 use crate::consensus::ValidatorEpochInfo;
